@@ -17,7 +17,7 @@ def replay(case):
     if case['harness'].startswith('c10.x'):
         return xengine.replay(case)
     name, p = case['input']['harness'], case['input']['params']
-    msg = monitor_point(name, p)
+    msg = shuffle_point(p) if name == 'c10.shuffle' else monitor_point(name, p)
     return (msg is not None), (msg or 'no violation')
 
 
@@ -109,11 +109,32 @@ def monitor_point(name, p):
     return None
 
 
+def shuffle_point(p):
+    """Shuffle (library, fixed and seeded) keeps the documented number of variables and the literal range"""
+    import random
+    from cnfgen.transformations.shuffle import Shuffle
+    from cnfgen.transformations.substitutions import XorSubstitution
+    from . import c05
+    F = c05.mk_input(p['f'])
+    n = F.number_of_variables()
+    if p['mode'] == 'fixed':
+        G = Shuffle(F, 'fixed', 'fixed', 'fixed')
+    else:
+        random.seed(p['mode'])
+        G = Shuffle(F)
+    for H, want in ((G, n), (XorSubstitution(G, 2), 2 * n)):
+        if H.number_of_variables() != want:
+            return 'number_of_variables()=%d after shuffling a formula with %d variables (expected %d)' % (H.number_of_variables(), n, want)
+        if any(l == 0 or abs(l) > want for l in literals_of(H)):
+            return 'literal out of range after shuffle'
+    return None
+
+
 def shard(items, part):
     for name, p in items:
         part.counts['monitored_instances'] += 1
         try:
-            msg = monitor_point(name, p)
+            msg = shuffle_point(p) if name == 'c10.shuffle' else monitor_point(name, p)
         except Exception as e:  # noqa
             msg = None
             part.counts['monitor_skipped_exception'] += 1
@@ -138,7 +159,7 @@ def run(tier):
     run.outside = ['clauses inserted with check=False by user code (documented as trusting the caller)', 'longer histories']
     run.assumptions = ['monitor wrappers see every insertion because all builders go through add_clause / add_constraint / _add_variable_group']
     T = 300 if tier == 'quick' else 1200
-    sel = [n for n in names if n.startswith('h_e_hist2_')] + ([n for n in names if n.startswith('h_e_hist3_')] if tier != 'quick' else ['h_e_hist3_1', 'h_e_hist3_5', 'h_e_hist3_9'])
+    sel = [n for n in names if n.startswith('h_e_hist2_')] + ([n for n in names if n.startswith('h_e_hist3_')] if tier != 'quick' else ['h_e_hist3_1', 'h_e_hist3_5', 'h_e_hist3_11'])
     conds = [xengine.Cond('c10', n, T, symbolic=False) for n in sel]
     part = xengine.run_conditions('c10.x', conds)
     from cnfgen.formula import basecnf, baseopb, variables
@@ -151,6 +172,8 @@ def run(tier):
         step = 3 if tier == 'quick' else 1
         items += [(name, p) for p in pts[::step]]
     items += REALISTIC
+    from . import c05
+    items += [('c10.shuffle', {'f': f, 'mode': m}) for f in c05.small_cnfs()[::(4 if tier == 'quick' else 1)] for m in ('fixed', 0, 1)]
     p2 = run_shards(shard, items)
     run.add(p2, {'harness': 'c10.mon', 'engine': 'run-time monitor on concrete runs (not solver-decided)', 'points': len(items)})
     return run.finish()
